@@ -12,7 +12,7 @@ import random
 ID = "C14"
 LEVEL = "exploration"
 TECHNIQUE = "shadow-registry oracle after every operation + icontract class invariant on Model"
-RULE = ("alphabet {create a, create b, create p (an agent whose initialize() creates a companion agent), create_agents(a,2), delete oldest, delete newest, delete two ids, delete unknown id, "
+RULE = ("alphabet {create a, create b, create p (an agent whose initialize() creates a companion agent), a creation whose initialize() raises, delete_agents(agent_ids(a)) with the model's own list, create_agents(a,2), delete oldest, delete newest, delete two ids, delete unknown id, "
         "configure_agents, reset, flip state}: ALL sequences of length<=4 (quick) / <=5 (thorough), plus seeded random sequences "
         "of length 10-40; after every operation agent(id) for every id ever issued, agent_ids/agent_count per type, "
         "agent_count_per_state and next_agent per (type,state), random_agents. distinct_nontrivial = distinct operation "
@@ -21,8 +21,8 @@ ASSUMPTIONS = ["agent_ids order is not judged (compared as multisets)", "models 
 REQUIRED = {"queries": 10000, "invariant_evaluations": 1000}
 BUDGET_S = {"quick": 100, "thorough": 1200}
 
-OPS = ["create_a", "create_b", "create_a2", "del_oldest", "del_newest", "del_two", "del_unknown", "configure", "reset", "flip", "create_p"]
-TYPES = ("a", "b", "p")
+OPS = ["create_a", "create_b", "create_a2", "del_oldest", "del_newest", "del_two", "del_unknown", "configure", "reset", "flip", "create_p", "del_all_a_alias", "create_fail"]
+TYPES = ("a", "b", "p", "x")
 STATES = ["active", "idle"]
 
 
@@ -96,6 +96,12 @@ def new_model():
         def initialize(self):
             self.model.create_agent("b", None)
     m.register_agent_factory("p", lambda i, mod, p: Parent(i, mod, p, "p"))
+
+    class Broken(Agent):
+        # an agent whose set-up fails (it reads a property its specification forgot)
+        def initialize(self):
+            raise KeyError("capacity")
+    m.register_agent_factory("x", lambda i, mod, p: Broken(i, mod, p, "x"))
     return m
 
 
@@ -137,6 +143,18 @@ def apply(m, sh, op, counters):
             if a2.id in sh.issued:
                 return dict(kind="id-reused", id=a2.id)
             sh.created(a2, a2.agent_type)
+    elif name == "del_all_a_alias":
+        # the list the model itself handed out is passed straight back
+        ids = m.agent_ids("a")
+        m.delete_agents(ids)
+        for i in [i for i, (t, _s) in sh.live.items() if t == "a"]:
+            del sh.live[i]
+    elif name == "create_fail":
+        try:
+            m.create_agents({"name": "x", "count": 2})
+            return dict(kind="failing-initialize-did-not-raise")
+        except KeyError:
+            pass
     elif name == "del_oldest":
         if sh.live:
             i = next(iter(sh.live))
